@@ -622,7 +622,7 @@ HARNESSES = [
          "hed.schema.schema_io.df2schema.SchemaLoaderDF._create_entry",
          "hed.schema.schema_io.df2schema.SchemaLoaderDF._get_tag_attributes",
          "hed.schema.schema_io.df_util.get_attributes_from_row"],
-        quick=R.tier(cells=R.int_cells("VP_DL", 0, 3), env={"VP_N": 3, "VP_M": 1}, timeout=300,
+        quick=R.tier(cells=R.int_cells("VP_DL", 0, 3), env={"VP_N": 3, "VP_M": 1}, timeout=700,
                      bound="a tag row with any description of <= 3 characters over the schema text class (+ comma) and "
                            "a suggestedTag value of 1 character over the name class"),
         thorough=R.tier(cells=R.int_cells("VP_DL", 0, 5), env={"VP_N": 5, "VP_M": 2}, timeout=1800, path_timeout=60,
